@@ -14,7 +14,7 @@ THEOREMS = ['C02_alignTable', 'C02_padding', 'C02_encode', 'C02_decode', 'C02_en
             'C02_encode_fuel_free', 'C02_encode_noVariant_fuel_free', 'C02_encode_conf_fuel_free',
             'C02_encode_checked_fuel_free', 'C02_unmarshal_fuel_canonical', 'layout_dict_entry', 'layout_fields', 'layout_elems',
             'layout_array', 'layout_string', 'layout_signature', 'layout_variant', 'layout_struct',
-            'layout_byte_order']
+            'layout_byte_order', 'C02_encode_no_list', 'C02_encode_initial_list']
 TRUSTED_BASE = c01.TRUSTED_BASE + [
     'lean/TxdbusModel/Wire/Spec.lean and harness/c02_ref.py: two independent transcriptions of the DBus '
     'specification (Lean / Python), compared with each other on every run (stream spec-vs-reference)',
